@@ -26,6 +26,9 @@ let show_state s nnew =
 
 exception Badop
 
+let fig = Array.make 5 BZ.zero   (* up total, comp total, left, up baseline, comp baseline *)
+let fig_op () = OStats (z_of_zt (BZ.sub fig.(0) fig.(3)), z_of_zt (BZ.sub fig.(1) fig.(4)), z_of_zt fig.(2))
+
 let parse_op k st tok =
   let a = String.split_on_char ':' tok in
   let z i = z_of_string (List.nth a i) in
@@ -33,7 +36,7 @@ let parse_op k st tok =
     match List.nth a i with
     | "b" -> (match List.filter (fun t -> t.t_busy) st.trs with t :: _ -> Some t.t_id | [] -> None)
     | "B" -> (match List.rev (List.filter (fun t -> t.t_busy) st.trs) with t :: _ -> Some t.t_id | [] -> None)
-    | v -> let v = int_of_string v in if v < k then Some (nat_of_int v) else None in
+    | v -> let v = int_of_string v in if v < List.length st.trs then Some (nat_of_int v) else None in
   match List.hd a with
   | "en" -> Some (OEnable true) | "ek" -> Some (OEnable false) | "di" -> Some ODisable | "cl" -> Some OClose
   | "ss" -> Some OSendStart | "sp" -> Some OSendStop | "sc" -> Some OSendCompleted | "su" -> Some OSendUpdate
@@ -45,7 +48,9 @@ let parse_op k st tok =
   | "fl" -> (match id 1 with Some i -> Some (OFailure (i, None)) | None -> None)
   | "fi" -> (match id 1 with Some i -> Some (OFailure (i, Some (z 2, z 3))) | None -> None)
   | "ad" -> Some (OAdvance (z 1)) | "nx" -> Some ONext
-  | "st" -> Some (OStats (z 1, z 2, z 3))
+  | "st" -> fig.(0) <- BZ.of_string (List.nth a 1); fig.(1) <- BZ.of_string (List.nth a 2); fig.(2) <- BZ.of_string (List.nth a 3); Some (fig_op ())
+  | "bl" -> fig.(3) <- BZ.of_string (List.nth a 1); fig.(4) <- BZ.of_string (List.nth a 2); Some (fig_op ())
+  | "in" -> Some (OInsert (nat_of_int (int_of_string (List.nth a 1))))
   | "ST" -> Some (OStart false) | "STK" -> Some (OStart true) | "SP" -> Some (OStop false) | "SPK" -> Some (OStop true)
   | _ -> raise Badop
 
@@ -81,6 +86,7 @@ let () = each_line (fun line ->
       let rec drop n l = if n <= 0 then l else match l with [] -> [] | _ :: r -> drop (n - 1) r in
       (match drop k rest with
        | ";" :: ops ->
+           Array.fill fig 0 5 BZ.zero;
            let s0 = init (z_of_zt (BZ.add base_us (BZ.of_string t0))) groups in
            let b = Buffer.create 1024 in
            let first = ref true in
